@@ -703,7 +703,9 @@ def main():
             # shift (for these the global vacations are checked in ResourceScenario.onShift only)
             for k in range(n // 3):
                 days = rng.sample(range(1, 12), 3)
-                vac = "".join(f'vacation "H{i}" {(START + dt.timedelta(days=d)).strftime("%Y-%m-%d")} - {(START + dt.timedelta(days=d + 1)).strftime("%Y-%m-%d")}\n'
+                # (global time off is declared either as `vacation` or as `leaves <type>`)
+                vac = "".join((f'vacation "H{i}" ' if rng.random() < 0.5 else f'leaves {rng.choice(["holiday", "annual", "special"])} "H{i}" ')
+                              + f'{(START + dt.timedelta(days=d)).strftime("%Y-%m-%d")} - {(START + dt.timedelta(days=d + 1)).strftime("%Y-%m-%d")}\n'
                               for i, d in enumerate(days))
                 kind = rng.choice(["own", "shift", "default"])
                 rdef = {"own": 'resource r "r" { workinghours mon - fri 08:00 - 16:00 }\n',
@@ -766,6 +768,25 @@ def main():
                 diff = {f: (got.get(f), want.get(f)) for f in set(got) | set(want) if got.get(f) != want.get(f)}
                 fails.append({"clause": "C07:reference-schedule", "key": key, "detail": str(diff)[:400], "input": text})
         evals += double_edge_subuniverse(prop, rng, n, fails, record)
+        # third sub-universe: a high-priority task that depends on a CONTAINER becomes ready when the container's last leaf is
+        # placed; it is then served before lower-priority ready tasks on the same resource
+        for k in range(n // 4):
+            e = [rng.choice([3, 5, 8]) for _ in range(4)]
+            two = rng.random() < 0.5
+            text = ('project prj "P" 2025-01-06 +3w { timezone "UTC" }\nresource r "r" {}\n'
+                    f'task ph "ph" {{\n  task p "p" {{ priority 600 effort {e[0]}h allocate r }}\n'
+                    + (f'  task p2 "p2" {{ priority 600 effort {e[3]}h allocate r depends !p }}\n' if two else "") + '}\n'
+                    f'task h "h" {{ priority 900 effort {e[1]}h allocate r depends ph }}\n'
+                    f'task l "l" {{ priority {rng.choice([500, 300])} effort {e[2]}h allocate r }}\n')
+            proj = run(text)
+            evals += 1
+            record(("cdep", k), text)
+            d_ = dates(proj)
+            if not all(v[2] for v in d_.values()):
+                fails.append({"clause": "C07:feasible-project-unscheduled", "key": f"C07/cdep/{SEED}/{k}", "input": text, "detail": str(d_)[:200]})
+            elif not (d_["ph"][1] <= d_["h"][0] and d_["h"][1] <= d_["l"][0]):
+                fails.append({"clause": "C07:priority-order", "key": f"C07/cdep/{SEED}/{k}", "input": text,
+                              "detail": f"ph ends {d_['ph'][1]}, h (priority 900) {d_['h'][0]}..{d_['h'][1]}, l (lower priority) starts {d_['l'][0]}"})
     elif prop == "C09":
         for k, p in enumerate(gen_projects(rng, n, containers=False)):
             base = dates(run(render(p)))
@@ -973,6 +994,25 @@ def main():
             back = {f: (s - dt.timedelta(weeks=w) if s else None, e - dt.timedelta(weeks=w) if e else None, sch) for f, (s, e, sch) in sh.items()}
             if back != base:
                 fails.append({"clause": "C14:week-shift", "key": f"C14/{SEED}/{k}", "detail": f"shift {w} weeks", "input": text})
+        # second sub-universe: '+Nm' projects that start late in the year (the month arithmetic wraps past December), forward
+        # scheduling only (for ALAP the length of a calendar month matters: recorded finding D10a); shifts keep the weekday
+        for k in range(n // 6):
+            st0 = dt.datetime(2024, rng.choice([10, 11, 12]), 1)
+            st0 += dt.timedelta(days=(7 - st0.weekday()) % 7)          # first Monday of the month
+            months = rng.choice([3, 6])
+            pin = rng.choice([3, 5, 7])
+
+            def mtxt(st_):
+                return (f'project prj "P" {st_.strftime("%Y-%m-%d")} +{months}m {{ timezone "UTC" }}\nresource r "r" {{}}\n'
+                        f'task a "a" {{ effort 13h allocate r start {(st_ + dt.timedelta(weeks=pin)).strftime("%Y-%m-%d")} }}\n'
+                        'task b "b" { effort 20h allocate r depends a }\n')
+            w = rng.choice([1, 2, 9, 13])
+            a, b = dates(run(mtxt(st0))), dates(run(mtxt(st0 + dt.timedelta(weeks=w))))
+            evals += 1
+            record(("months", k), mtxt(st0))
+            back = {f: (s_ - dt.timedelta(weeks=w) if s_ else None, e_ - dt.timedelta(weeks=w) if e_ else None, sch) for f, (s_, e_, sch) in b.items()}
+            if back != a:
+                fails.append({"clause": "C14:week-shift", "key": f"C14/months/{SEED}/{k}", "detail": f"+{months}m project starting {st0.date()}, shift {w} weeks: {a} vs {back}"[:300], "input": mtxt(st0)})
     elif prop == "C15":
         for k, p in enumerate(gen_projects(rng, n // 2)):
             base = dates(run(render(p)))
